@@ -286,24 +286,32 @@ def _r3(ck: Checker, prog: Program, w, r):
             ck.violation("C12.R3", W, f"{what} writer columns", "; ".join(bad), loc=w.loc(br))
         else:
             ck.ok("C12.R3", W, f"{what} writer columns", detail=f"0 <- frequency; 1:-2 <- rows of {want_curves[what]}; -2 <- mean curve; -1 <- std curve (distribution_mc)")
-    # headers: one per curve in the same nesting order as the blocks
-    hl = [st for st in a.body if isinstance(st, ast.For) and any(isinstance(x, ast.JoinedStr) for x in ast.walk(st))]
-    hdr_ok = False
-    fstr = None
-    if len(hl) == 1 and isinstance(hl[0].iter, ast.Call) and call_name(hl[0].iter) == "zip" \
-            and [unparse(x) for x in hl[0].iter.args] == ["hvsr.azimuths", "hvsr.hvsrs"]:
-        inner = [st for st in hl[0].body if isinstance(st, ast.For)]
-        if len(inner) == 1 and isinstance(inner[0].iter, ast.Call) and call_name(inner[0].iter) == "range":
-            rng = [unparse(x) for x in inner[0].iter.args]
-            hvn = unparse(hl[0].target.elts[1])
-            hdr_ok = rng == ["1", f"{hvn}.n_curves + 1"]
-            for x in ast.walk(inner[0]):
-                if isinstance(x, ast.JoinedStr):
-                    fstr = x
-    if hdr_ok and fstr is not None:
+    # headers: one per curve in the same nesting order as the blocks (loop nest or comprehension - names are free)
+    fstr, gens, guarded = _azimuth_header_nest(a)
+    if fstr is None:
+        raise AnalysisError(f"{W}: the per-curve header text of the azimuthal branch was not found")
+    TH = Translator()
+    TH.structured = True
+    TH.attr_of_bound = True
+    it = [sp.Symbol(f"<h{i}>", real=True) for i in range(len(gens))]
+    got = []
+    for i, (tg, itx) in enumerate(gens):
+        got.append(TH.tr(itx))
+        if isinstance(tg, ast.Name):
+            TH.env[tg.id] = it[i]
+        elif isinstance(tg, (ast.Tuple, ast.List)):
+            for j, e in enumerate(tg.elts):
+                if isinstance(e, ast.Name):
+                    TH.env[e.id] = sp.Function("item")(it[i], sp.Integer(j))
+    vals = [TH.tr(v.value) for v in fstr.values if isinstance(v, ast.FormattedValue)]
+    Hs = TH.sym("hvsr")
+    item = sp.Function("item")
+    want_g = [sp.Function("zip")(sp.Function("attr_azimuths")(Hs), sp.Function("attr_hvsrs")(Hs)),
+              sp.Function("range")(sp.Integer(1), sp.Function("attr_n_curves")(item(it[0], sp.Integer(1))) + 1)] if len(it) >= 2 else None
+    if len(gens) == 2 and got == want_g and vals == [item(it[0], sp.Integer(0)), it[1]] and not guarded:
         ck.ok("C12.R3", W, "one header per curve, azimuth-major", nontrivial=False)
     else:
-        ck.violation("C12.R3", W, "azimuthal headers", "headers are not written one per curve in azimuth-major order", loc=w.loc(a))
+        ck.violation("C12.R3", W, "azimuthal headers", f"headers are not written one per curve in azimuth-major order (iteration nest {got}, values {vals}{', conditional' if guarded else ''})", loc=w.loc(a))
     # header f-string vs reader regex
     if fstr is not None:
         _header_vs_regex(ck, prog, w, fstr)
@@ -352,6 +360,32 @@ def _r3(ck: Checker, prog: Program, w, r):
             ck.violation("C12.R3", R, "diffuse field layout", f"writer {gotd} vs reader {[unparse(x) for c in cons for x in c.args[:2]]}", loc=r.loc(rdif))
 
 
+def _azimuth_header_nest(branch: ast.If):
+    """The f-string that labels one curve of one azimuth, with the iteration constructs around it from the outside in:
+    for-loops and/or comprehension generators.  Returns (f-string, [(target, iterable)], guarded?)."""
+    best = None
+    for x in ast.walk(ast.Module(body=branch.body, type_ignores=[])):
+        if isinstance(x, ast.JoinedStr) and sum(isinstance(v, ast.FormattedValue) for v in x.values) == 2 \
+                and any(isinstance(v, ast.Constant) and "azimuth" in str(v.value) for v in x.values):
+            best = x
+    if best is None:
+        return None, [], False
+    gens, guarded = [], False
+    n = best
+    while n is not None and n is not branch:
+        p = parent_of(n)
+        if isinstance(p, (ast.ListComp, ast.GeneratorExp, ast.SetComp)) and n is p.elt:
+            gens = [(g.target, g.iter) for g in p.generators] + gens
+            guarded = guarded or any(g.ifs for g in p.generators)
+        elif isinstance(p, ast.For) and any(n is b for b in p.body):
+            gens = [(p.target, p.iter)] + gens
+            guarded = guarded or any(isinstance(z, (ast.Break, ast.Continue)) for z in ast.walk(p))
+        elif isinstance(p, (ast.If, ast.While, ast.Try)) and p is not branch:
+            guarded = True
+        n = p
+    return best, gens, guarded
+
+
 def _writer_layout(prog: Program, w, stmts):
     """Interpret the column stores of one writer branch.
     Returns {"cols": {"0"|"-1"|...: value}, "curves": canonical sequence of the 2-D arrays whose rows fill columns 1:-2, "problems": [...]}."""
@@ -380,8 +414,18 @@ def _writer_layout(prog: Program, w, stmts):
                 out["cols"][str(c)] = e[2]
             elif getattr(c, "func", None) == sl and c.args == (sp.Integer(1), sp.Integer(-2), NONE):
                 v = e[2]
-                if getattr(v, "func", None) == sp.Function("attr_T"):
+                fnm = lambda z: getattr(getattr(z, "func", None), "__name__", "")   # noqa: E731
+                if fnm(v) == "attr_T" and fnm(v.args[0]) in ("vstack", "concatenate", "row_stack") and len(v.args[0].args) == 1:
+                    # (blocks stacked row-wise).T: the blocks' rows, in order
+                    out["curves"] = v.args[0].args[0]
+                elif fnm(v) == "attr_T":
                     out["curves"] = sp.Tuple(v.args[0])
+                elif fnm(v) in ("hstack", "column_stack") and len(v.args) == 1 and fnm(v.args[0]) == "comp" and fnm(v.args[0].args[0]) == "attr_T":
+                    # transposed blocks side by side, in the order of the sequence
+                    cc = v.args[0]
+                    out["curves"] = comp(cc.args[0].args[0], *cc.args[1:])
+                elif fnm(v) in ("hstack", "column_stack") and len(v.args) == 1 and isinstance(v.args[0], sp.Tuple) and all(fnm(z) == "attr_T" for z in v.args[0]):
+                    out["curves"] = sp.Tuple(*[z.args[0] for z in v.args[0]])
                 else:
                     out["problems"].append(f"columns 1:-2 hold {v}, not a transposed array of curves")
             else:
